@@ -134,7 +134,8 @@ structure FloatLeg (α : Type) where
   principal : α
   isPay : Bool
 
-/-- Constructor (`notional_array = [notional] * num_payments`, filled at the first `value`). -/
+/-- Constructor: `self.principal = principal` (as of commit f4e65d4; before it the argument was dropped and
+0.0 stored), `notional_array = [notional] * num_payments` (filled at the first `value`). -/
 def mkFloatLeg (spread notional principal : α) (isPay : Bool) (ps : List (Period α)) : FloatLeg α :=
   { periods := ps, notionals := List.replicate ps.length notional, notional := notional,
     spread := spread, principal := principal, isPay := isPay }
@@ -214,10 +215,14 @@ def swapRate (absf : α → α) (gSmall : α) (df : Int → α) (idx : IndexCurv
     let fl := if s.float.isPay then -fl else fl
     .ok (fl / p)
 
-/-- `OIS.swap_rate`: `float_leg_value / pv01 / fixed_leg.notional` — no guard, no sign flip. -/
+/-- `OIS.swap_rate` (as of commit 2a49ff7): the floating leg value with the PAY sign undone
+(`if self.float_leg.leg_type == SwapTypes.PAY: float_leg_value = -float_leg_value`), then
+`/ pv01 / fixed_leg.notional` — no `g_small` guard. -/
 def oisSwapRate (absf : α → α) (df : Int → α) (idx : IndexCurve α) (ff : Option α)
     (s : Swap α) (vd : Int) : α :=
-  floatValue df idx ff s.float vd / pv01 absf df s vd / s.fixed.notional
+  let fl := floatValue df idx ff s.float vd
+  let fl := if s.float.isPay then -fl else fl
+  fl / pv01 absf df s vd / s.fixed.notional
 
 /-- `IborSwap.set_fixed_rate`: new coupon, `generate_payments()` again. -/
 def setFixedRate (s : Swap α) (cpn : α) : Swap α :=
